@@ -34,6 +34,9 @@ def akai_payload():
                 ch = list(range(sec, sec + m))[::-1]
                 sec += m
                 f = {"name": nm, "n": n, "chain": ch, "seq": seq}
+                # differing sample rates, and one header whose rate field is 0 (whatever the tool makes of it, it must make
+                # the same of it whatever was read before)
+                f["rate"] = {"ONE": 22050 if p == 0 else 32000, "PAD-L": 32000 if p == 0 else 22050, "PAD-R": 32000 if p == 0 else 22050, "SOLO": 0}[nm]
                 if nm == "SOLO":
                     f["start"], f["end"] = 30, n - 7      # play window not starting at 0: loop points relative to it
                 if nm in ("ONE", "SOLO"):
@@ -327,7 +330,7 @@ class Check(CheckBase):
     id = "C16"
     level = "model_checking"
     title = "Results depend only on the image bytes, not on what was looked at before"
-    rule = ("per image (AKAI: 2 partitions x 2 volumes, L/R pair, fragmented chains, a program, a file filling its last "
+    rule = ("per image (AKAI: 2 partitions x 2 volumes, differing sample rates and a rate field of 0, L/R pair, fragmented chains, a program, a file filling its last "
             "sector; Roland: 2 volumes + orphan performance, shared sample, reverse mode, start point > 0, two samples in one cluster chain reached through different performances, L/R pair; CDDA: duplicate and missing "
             "titles; AKAI and Roland again as read-only real files; a DAMAGED AKAI image (one volume cannot be realised: requests touching it fail, and must fail the same way under every history; its second partition holds a volume with two unparsable files (wiped header; declared size shorter than a header) among good ones); an INCOMPLETE AKAI image that ends inside a mono sample's audio and inside the right half of an L/R pair; a third AKAI image whose names are sanitised differently by role "
             "(ending in '-' / '.', '+'), where one raw name is a volume in one partition and a sample in another and where two "
